@@ -34,7 +34,8 @@ def context(draw, hostile=True):
     return {
         "s1": draw(tv), "s2": draw(tv), "n1": draw(st.integers(-3, 1000)), "zero": 0, "es": "", "none1": None,
         "empty": [], "lst": lst, "lst2": draw(st.lists(tv, min_size=1, max_size=3)),
-        "d1": {"k_a": draw(tv), "k_b": {"k_c": draw(tv)}, "k_l": draw(st.lists(st.integers(0, 9), max_size=3)), "k_none": None},
+        "d1": {"k_a": draw(tv), "k_b": {"k_c": draw(tv)}, "k_l": draw(st.lists(st.integers(0, 9), max_size=3)), "k_none": None,
+               "7": draw(tv), "2024": {"k_a": draw(tv)}},  # mapping keys that look like numbers
         "f1": {"__call__": draw(tv)}, "fl": {"__call__": draw(st.lists(tv, min_size=0, max_size=3))},
         "fd": {"__call__": {"k_a": draw(tv)}},
     }
@@ -42,7 +43,7 @@ def context(draw, hostile=True):
 
 BASE_PATHS = ["s1", "s2", "n1", "zero", "es", "none1", "empty", "lst", "lst2", "d1/k_a", "d1/k_b/k_c", "d1/k_l", "d1/k_none",
               "d1/missing", "missing", "missing/deeper", "f1", "fd/k_a", "lst/0", "lst/7", "lst2/0", "d1/k_l/0", "nothing", "default",
-              "s1/nope",
+              "s1/nope", "d1/7", "d1/2024/k_a", "d1/3", "lst/-1", "lst2/-1", "d1/k_l/-1", "lst2/-9",
               # names that tal:define statements elsewhere in the template may (or may not) have defined: out of their scope they
               # are missing, and a global define is seen from there on
               "v00", "v01", "v10", "v11", "v20", "v21", "v30", "gv1", "globalnav", "locale", "localx"]
